@@ -528,7 +528,7 @@ Lemma PosOK_head q u' p' stt m :
   p_aend q = p_acur q /\
   exists acur' dm aend',
     astep (p_acur q) m = Some (acur', dm) /\ run_rel acur' aend' /\ incl (doc_events dm) (doc_events SD) /\
-    (mcmd m = COpenRun -> p_c q = []) /\
+    (needs_fresh (mcmd m) = true -> p_c q = []) /\
     PosOK (mkpos (p_pre q ++ p_c q ++ [m]) [] [] [] u' p' stt acur' acur' aend' (p_d0 q ++ p_dc q ++ dm) []).
 Proof.
   intros HP Hin Hfl Hu Hh Hfo. pose proof (pos_facts q HP) as (W0 & Wc & We & Hrr & Hn & Hds & Hfr & drest & Hrest & HSD).
@@ -546,8 +546,8 @@ Proof.
   { intros Ec. destruct (p_c q) as [|m0 c0] eqn:Ecq; [reflexivity|]. exfalso.
     assert (Hf : a_fresh (p_acur q) = false) by (apply Hfr; discriminate).
     pose proof (astep_mrun _ _ _ _ _ _ Hst) as Hrun.
-    unfold PointSpec.astep in Hst. rewrite Hrun, Nat.eqb_refl, Ec, Hf in Hst. cbn [negb] in Hst.
-    destruct (a_run (p_acur q)); discriminate. }
+    unfold PointSpec.astep in Hst. rewrite Hrun, Nat.eqb_refl, Hf in Hst. cbn [negb] in Hst.
+    destruct (mcmd m); try discriminate Ec; destruct (a_run (p_acur q)); discriminate. }
   unfold PosOK, mkpos, pend; cbn. pos_split; try assumption; try reflexivity.
   - rewrite P1, <- !app_assoc. reflexivity.
   - apply arun_app. exists (p_a0 q), (p_d0 q), (p_dc q ++ dm). split; [exact P3|]. split; [|reflexivity].
@@ -824,8 +824,10 @@ Proof.
     { rewrite BB, HbA. exact L4. }
     { rewrite UB, HuA. exact L3. }
     { destruct KB as (_ & _ & _ & _ & _ & _ & _ & _ & _ & _ & _ & KB12 & _). rewrite KB12. subst sA. simp_st. exact L9. }
+    { intros Hnf. specialize (Hopen Hnf). destruct HP as (_ & _ & _ & P4 & _). rewrite Hopen in P4. cbn in P4. injection P4 as Ea _. exact Ea. }
     assert (Hc3 : cache s3 = Some []).
-    { rewrite C3. destruct (mcmd m) eqn:Ecmd; try reflexivity. rewrite CB, open_run_cacheable. rewrite (Hopen eq_refl). reflexivity. }
+    { destruct C3 as [C3 | [Hnf C3]]; [exact C3|]. rewrite C3, CB, (Hopen Hnf).
+      destruct (mcmd m); try discriminate Hnf; reflexivity. }
     set (q3 := mkpos (p_pre q ++ p_c q ++ [m]) [] [] [] u' p' stt acur' acur' aend' (p_d0 q ++ p_dc q ++ dm) []).
     destruct Hcr as [(v' & ->) | (-> & Hck)].
     + eexists. eexists. split.
